@@ -459,3 +459,39 @@ func H_C15_extract_groups() {
 	}
 	vReach("end")
 }
+
+// messages and echoed inputs with characters that formatting or case mapping could disturb: '%' verbs,
+// runes whose lower-case form has another byte length (U+0130, U+1E9E, U+212A), through every carrier
+func H_C15_verbatim_special() {
+	msg := []string{"100% of", "50%d", "%s %v %!", "ends with %", "%%"}[vndChoice("msg", 5)]
+	in := []string{"İstanbul", "STRAẞE", "K2", "ab%sc", "x"}[vndChoice("in", 5)]
+	want := "input \"" + in + "\", " + ExplainEn + " " + msg
+	var err error
+	switch vndChoice("carrier", 4) {
+	case 0:
+		err = Var(in, "le=0|"+msg)
+	case 1:
+		err = Struct(&vC15S{F: in}, RM{"F": "le=0|" + msg})
+		want = "\"vC15S.F\" " + want
+	case 2:
+		err = Map(map[string]string{"k": in}, NewRule().Set("k", "le=0|"+msg))
+		want = "\"map[k]\" " + want
+	case 3:
+		err = Url("h?k="+vPctEncode(in), NewRule().Set("k", "le=0|"+msg))
+		want = "\"k\" " + want
+	}
+	vAssert(err != nil && err.Error() == want, "C15 verbatim: message and echoed input appear unchanged")
+	if err != nil {
+		var got string
+		ok := vNoPanic(func() { got = GetOnlyExplainErr(err.Error()) })
+		vAssert(ok && got == msg, "C15 verbatim: the extractor returns the message unchanged")
+	}
+	// two clauses, the second labelled in Chinese
+	err2 := Var(in, "le=0|"+msg, "ge=99|太短")
+	if err2 != nil {
+		var got string
+		ok := vNoPanic(func() { got = GetOnlyExplainErr(err2.Error()) })
+		vAssert(ok && got == msg+ErrEndFlag+"太短", "C15 verbatim: two clauses extracted in order")
+	}
+	vReach("end")
+}
